@@ -30,10 +30,14 @@ import (
 
 type vrdStream struct {
 	grpc.ServerStream
-	msgs []*sdcpb.WatchDeviationResponse
+	msgs   []*sdcpb.WatchDeviationResponse
+	broken bool // a watcher whose connection is gone: every Send fails
 }
 
 func (s *vrdStream) Send(m *sdcpb.WatchDeviationResponse) error {
+	if s.broken {
+		return fmt.Errorf("transport is closing")
+	}
 	s.msgs = append(s.msgs, m)
 	return nil
 }
@@ -163,14 +167,25 @@ func TestVerifReplayDeviations(t *testing.T) {
 					}
 					st := &vrdStream{}
 					in := fmt.Sprintf("path=%s,running=%q,intents=%v,intendedKeysReadFails=%v", xpath, running, intents, keysFail)
+					watchers := map[string]sdcpb.DataServer_WatchDeviationsServer{"c1": st, "gone": &vrdStream{broken: true}}
+					for _, wn := range []string{"c2", "c3", "c4", "c5", "c6"} {
+						watchers[wn] = &vrdStream{}
+					}
 					func() {
 						defer func() {
 							if r := recover(); r != nil {
 								fmt.Printf("REPLAY-FAIL fn=%s clause=panic input=%s panic=%v\n", fn, in, r)
 							}
 						}()
-						d.runDeviationUpdate(context.Background(), map[string]sdcpb.DataServer_WatchDeviationsServer{"c1": st})
+						d.runDeviationUpdate(context.Background(), watchers)
 					}()
+					// every healthy watcher gets the whole cycle, whatever happens to the others
+					for name, w := range watchers {
+						if ws := w.(*vrdStream); !ws.broken && len(ws.msgs) != len(st.msgs) {
+							fmt.Printf("REPLAY-FAIL fn=%s clause=every_watcher_gets_the_cycle input=%s,watchers=6 healthy + 1 whose Send fails why=watcher %s got %d messages, watcher c1 got %d\n", fn, in, name, len(ws.msgs), len(st.msgs))
+							break
+						}
+					}
 					// expected report
 					var want []string
 					sorted := append([]vrdIntent{}, intents...)
